@@ -2,6 +2,7 @@
   C14 — admission policy and the per-message decision of the server.
 -/
 import DnsModel.Serve
+import DnsProofs.C01Hdr
 namespace Dns.C14
 open Dns
 
@@ -55,5 +56,36 @@ theorem reject_reply_shape (a : Action) (req : MsgHdr) (decodeOk : Bool) (h : Ms
     ∧ (i = true ↔ a = .accept) := by
   cases a <;> cases decodeOk <;> simp [serveDecision, rejectHdr] at hs <;>
     (obtain ⟨rfl, rfl⟩ := hs; simp)
+
+
+/-- **reject_reply_keeps**: apart from QR, opcode, AA, Z and RCODE the reply the server builds itself carries the
+    request's flag bits (RD, CD, TC, RA, AD) as they came -/
+theorem reject_reply_keeps (a : Action) (req : MsgHdr) (decodeOk : Bool) (h : MsgHdr) (i : Bool)
+    (hs : serveDecision true a req decodeOk = .reply h i) :
+    h.recursionDesired = req.recursionDesired ∧ h.checkingDisabled = req.checkingDisabled
+    ∧ h.truncated = req.truncated ∧ h.recursionAvailable = req.recursionAvailable
+    ∧ h.authenticatedData = req.authenticatedData := by
+  unfold serveDecision at hs
+  cases a <;> cases decodeOk <;> simp [rejectHdr] at hs <;>
+    (obtain ⟨rfl, rfl⟩ := hs; simp)
+
+/-- **library_reply_is_ignored**: no reply the server constructs itself is ever answered by a server running the
+    default policy — whatever its counts, it is dropped without a reply (two servers cannot bounce rejections) -/
+theorem library_reply_is_ignored (a : Action) (req : MsgHdr) (decodeOk : Bool) (h : MsgHdr) (i : Bool)
+    (ho : req.opcode < 16) (hs : serveDecision true a req decodeOk = .reply h i)
+    (qd an ns ar : Nat) (req' : MsgHdr) (ok' : Bool) :
+    serveDecision true (defaultAccept (packBits h) qd an ns ar) req' ok' = .ignored := by
+  obtain ⟨hr, _, _, hcode, _⟩ := reject_reply_shape a req decodeOk h i hs
+  have hlt : h.opcode < 16 ∧ h.rcode < 16 := by
+    rcases hcode with ⟨h1, h2⟩ | ⟨h1, h2, _⟩
+    · omega
+    · omega
+  apply response_never_answered
+  rw [Dns.C01H.unpackBits_packBits h hlt.1 hlt.2]
+  exact hr
+
+/-- non-vacuity: a NOTIFY-like opcode 5 request is answered NOTIMP, and that answer is ignored when sent back -/
+example : serveDecision true (defaultAccept (0x2800 : BitVec 16) 1 0 0 0) (unpackBits 0x2800) true
+    = .reply (rejectHdr (unpackBits 0x2800) true) false := by decide
 
 end Dns.C14
